@@ -1,16 +1,89 @@
 #!/usr/bin/env python3
-"""Generate src/harness_list.rs.  Names: <kind>_<Def>_n<N>_s<start>."""
-import sys
-SPEC = [  # (module::Type, lengths, starts)
-    ('basic::B1', range(0, 7), (0, 1, 2)),
-    ('basic::B2', range(0, 7), (0, 1, 2)),
+"""Generate src/harness_list.rs (deterministic).
+
+Harness kinds
+  spec_<D>_n<N>_s<S>            fully symbolic input of N bytes, one attempt from S, against the specification
+  specc_...                     same with the vacuity cover points
+  ctx_<D>_<ctx>_s<S>            concrete context with symbolic bytes ('?'), against the specification
+  skel_<D>_<skel>_n<N>_s<S>     skip skeleton: concrete skip bytes, symbolic non-skip bytes
+"""
+import sys, json
+
+def esc(c):
+    keep = 'abcdefghijklmnopqrstuvwxyzABCDEFGHIJKLMNOPQRSTUVWXYZ0123456789'
+    if isinstance(c, int): return '_%02x' % c
+    return c if c in keep else ('Q' if c == '?' else '_%02x' % ord(c))
+
+def ctx_bytes(c):
+    """context string -> list of int or None; '?' = symbolic; non-ASCII characters are UTF-8 encoded"""
+    out = []
+    for ch in c:
+        if ch == '?': out.append(None)
+        else: out += list(ch.encode('utf-8'))
+    return out
+
+def ctx_name(c): return ''.join(esc(b) if isinstance(b, int) and not (48 <= b < 58 or 65 <= b < 91 or 97 <= b < 123) else ('Q' if b is None else chr(b)) for b in ctx_bytes(c))
+
+# (Type, skip bytes, full-symbolic lengths, starts for full-symbolic, contexts, starts for contexts)
+DEFS = [
+    ('basic::B1', '', range(0, 4), (0, 1), ['if?', 'i?', 'ifx?', '1.?', '1?', '12.3?', 'a1?', 'i??', '1.??', '?', '9.?5', 'if?x', 'zif?'], (0, 1)),
+    ('basic::B2', '', range(0, 7), (0, 1, 2), ['a?', 'ab?', 'abc?', 'aa?', 'aaa?', 'b?', 'ab??'], (0, 1)),
+    ('basic::B3', '', range(0, 2), (0,), ['a?', 'aa?', 'ab?', 'aab?', 'x?', '"?', '"a?', '""?', 'a??', '"é?', '"a"?', 'ac?', 'abc?'], (0,)),
+    ('basic::B4', '', range(0, 5), (0, 1), ['A?', 'AB?', '!?', '4?', 'c?', '!!?', 'AE??'], (0, 1)),
+    ('basic::B5', '', range(0, 11), (0, 1), ['abcdefg?', 'abcdefgh?', 'abcdefghi?', 'abcdefghijklmnop?', 'abcdefghijklmno-?', '-abcdefgh?x'], (0, 1)),
+    ('basic::E1', '', range(0, 6), (0, 1), ['ab?', 'abc?', 'abcd?', 'x1?', 'x12?', 'x?', 'abcd??', 'x1y?'], (0, 1)),
+    ('skip::S1', ' \t', range(0, 2), (0,), [' a?', 'ab ?', 'a?', 'a ?', ' ?', '  ?', 'a \t?', '1 ? ', ' =?', 'a??', ' ??', 'ab=?1', '\t? a'], (0, 1)),
+    ('skip::S2', '\n-', range(0, 3), (0,), ['-?', '--?', '\n?', '---?', 'a-?', '--\n?', '-??', '->?'], (0, 1)),
+    ('utf8::U1', '', range(0, 3), (0,), ['é?', '€?', '€€?', '€€x?', '😀?', 'aß?', '?', 'ö?', '€é?', 'Ã?'[:0] + 'a?'], (0,)),
+    ('utf8::U2', '', range(0, 2), (0,), ['x?', 'x??', '"?', '"é?', '"€"?', 'x€?', '"a?'], (0,)),
+    ('utf8::E2', '', range(0, 4), (0,), ['a?', 'a€?', 'a??', '€?', '😀?', '???', '????'], (0,)),
 ]
+
 out = ['harnesses! {']
-for (ty, lens, starts) in SPEC:
+index = {}
+def add(name, unwind, body, **meta):
+    out.append('    %s [%d] => %s;' % (name, unwind, body))
+    index[name] = meta
+
+for (ty, skipb, lens, fstarts, ctxs, cstarts) in DEFS:
     short = ty.split('::')[-1]
     for n in lens:
-        for s in starts:
+        for s in fstarts:
             if s > n: continue
-            out.append('    spec_%s_n%d_s%d [%d] => attempt_vs_spec::<%s, %d>(&any(), %d);' % (short, n, s, max(n + 5, 10), ty, n, s))
+            add('spec_%s_n%d_s%d' % (short, n, s), max(n + 5, 10), 'attempt_vs_spec::<%s, %d>(&any(), %d)' % (ty, n, s), d=short, kind='spec', n=n, s=s, sym=n)
+            if n <= 2 and s == 0:
+                add('specc_%s_n%d_s%d' % (short, n, s), max(n + 5, 10), 'attempt_vs_spec_cov::<%s, %d>(&any(), %d)' % (ty, n, s), d=short, kind='specc', n=n, s=s, sym=n)
+    seen = set()
+    for c in ctxs:
+        bs = ctx_bytes(c)
+        if not bs: continue
+        arr = ', '.join('None' if b is None else 'Some(%d)' % b for b in bs)
+        nsk = (sum(1 for b in bs if b is not None and chr(b) in skipb) + bs.count(None)) if skipb else 0
+        for s in cstarts:
+            if s > len(bs): continue
+            name = 'ctx_%s_%s_s%d' % (short, ctx_name(c), s)
+            if name in seen: continue
+            seen.add(name)
+            add(name, max(len(bs) + 6, 10), 'attempt_context::<%s, %d>([%s], %d, %d, false)' % (ty, len(bs), arr, s, nsk), d=short, kind='ctx', n=len(bs), s=s, sym=bs.count(None), ctx=c)
+
+# skeletons: concrete skip bytes, '?' = symbolic non-skip byte
+SKEL = [
+    ('skip::S1', 'skip::s1_skip_byte', [' ?', '? ', ' ', '\t?', '  ?', ' ? '], (0,)),
+    ('skip::S2', 'skip::s2_skip_byte', ['-?', '--?', '?-', '?--', '\n?', '-\n-', '--', '---', '?\n?', '--?-', '-?-?', '\n-?', '??', '--\n?', '?--?', '-'], (0, 1)),
+]
+for (ty, pred, skels, starts) in SKEL:
+    short = ty.split('::')[-1]
+    for sk in skels:
+        bs = ctx_bytes(sk)
+        arr = ', '.join('None' if b is None else 'Some(%d)' % b for b in bs)
+        for s in starts:
+            if s > len(bs): continue
+            for cov in (False, True):
+                add('skel%s_%s_%s_s%d' % ('c' if cov else '', short, ctx_name(sk), s), max(len(bs) + 6, 10),
+                    'attempt_skeleton::<%s, %d>([%s], %d, %s, %s)' % (ty, len(bs), arr, s, pred, 'true' if cov else 'false'),
+                    d=short, kind='skelc' if cov else 'skel', n=len(bs), s=s, sym=bs.count(None), ctx=sk)
+
 out.append('}')
-open(sys.argv[1] if len(sys.argv) > 1 else 'src/harness_list.rs', 'w').write('\n'.join(out) + '\n')
+dst = sys.argv[1] if len(sys.argv) > 1 else 'src/harness_list.rs'
+open(dst, 'w').write('\n'.join(out) + '\n')
+json.dump(index, open(dst.replace('harness_list.rs', 'harness_index.json'), 'w'), indent=0)
